@@ -25,6 +25,7 @@ def run(ctx: Ctx) -> list[Ob]:
     obs += r7i.rewiring_order(ctx, ['evidence', 'concatenate'])
     obs += r10.r10g(ctx, only=('TorchEvidenceLayer', 'TorchConstant'))
     obs += r3.r3k(ctx)
+    obs += r3.r3l(ctx) + r3.r3m(ctx)
     return obs
 
 
@@ -41,8 +42,9 @@ SPEC = PropSpec(
         " R3d tensor-key: the observation tensors evidence introduces are folded like every other tensor -- each attribute the folder copies from the first tensor of a group (shape, requires_grad, dtype) is part of the tensor fold key (an int observation and a float one must not share one folded tensor). R4b/R4x on TorchEvidenceLayer / TorchConstantValueLayer (shape interpretation): forward(batch_size) returns (F, B, Ko) for every size, and its axis 0 is the fold axis and axis 1 the batch axis as element orders, not only as sizes (a repeat + view that re-reads the buffer across axis boundaries hands fold f the value of fold (f*B+b) mod F)."
         " R13e: the value handed to each evidence layer is looked up in the observation mapping by variable id (obs[v] for v over the layer's scope), never taken from obs.values() by position. R7e (element-wise form): outputs appended one by one are appended while iterating <operand>.outputs, not under a membership test inside another traversal."
         " R3k: every constructor hyper-parameter of a concrete symbolic layer (everything but its params and *_factory alternatives) is a key of its config and round-trips through it -- Layer.copyref(), the copy every operator makes of a layer it does not transform, rebuilds the layer from config (a constant layer that loses log_space is read as linear by the next operator)."
+        " R3l: the offsets by which the address-book builders address fold j of input module k (offset[k] + j) are the exclusive prefix sums of the fold counts -- an accumulate / cumsum over num_folds with a leading 0, or a running variable updated additively; a running offset that is overwritten instead of accumulated is right for one or two input modules and reads another operand's folds from the third on. R3m: no order-changing operation (sorted, reversed, set, .sort()) is applied to a fold index in the modules that build and use address books: entry i of a fold index describes fold i, and the consumers read folds by position."
     ),
     not_decided="numerical equality with the conditioned evaluation.",
     run=run,
-    floors={"R3k": 25, "R4b": 2, "R4x": 1, "R10g": 2, "R7i": 2, "R2a": 3, "R8": 3, "R7e": 2, "R3d": 2},
+    floors={"R3l": 2, "R3m": 8, "R3k": 25, "R4b": 2, "R4x": 1, "R10g": 2, "R7i": 2, "R2a": 3, "R8": 3, "R7e": 2, "R3d": 2},
 )
